@@ -148,7 +148,7 @@ def trace_of(sc, ev):
 MON_CFG = 'SPECIFICATION MSpec\nCONSTRAINT Record\nPOSTCONDITION Post\nCHECK_DEADLOCK FALSE\n'
 
 
-MON_KEYS = {'send': ('e', 'at', 'exp', 'target', 'method', 'hosts', 'auth', 'cookies', 'referer', 'nreferer', 'wf', 'proxied'),
+MON_KEYS = {'send': ('e', 'at', 'exp', 'target', 'method', 'hosts', 'auth', 'cookies', 'referer', 'nreferer', 'refcred', 'wf', 'proxied'),
             'recv': ('e', 'status', 'loc'), 'outcome': ('e', 'v')}
 STRICT_KEYS = {'send': ('e', 'curl', 'ahosts', 'auth', 'cookies', 'referer'),
                'recv': ('e', 'status', 'loc', 'locurl', 'setcookie'), 'outcome': ('e', 'v')}
